@@ -18,10 +18,10 @@ import (
 	ssi "github.com/nuts-foundation/go-did"
 	"github.com/nuts-foundation/go-did/did"
 	"github.com/nuts-foundation/nuts-node/network/dag"
-	"github.com/nuts-foundation/nuts-node/vdr/resolver"
-	"google.golang.org/protobuf/proto"
 	"github.com/nuts-foundation/nuts-node/network/transport"
 	"github.com/nuts-foundation/nuts-node/network/transport/grpc"
+	"github.com/nuts-foundation/nuts-node/vdr/resolver"
+	"google.golang.org/protobuf/proto"
 )
 
 // ---------------------------------------------------------------------------------------------
